@@ -221,6 +221,52 @@ example : (updatePoints exCol [(4, 41), (3, 31), (9, 91), (4, 42)]).failed = [(3
     (deletePoints exCol [5, 5, 1, 7]).failed = [(7, .unavailable)] ∧
     (deletePoints (exCol.map fun s => { s with up := true }) [3, 7]).failed = [(7, .notFound)] := by decide
 
+private theorem count_filter_ite (p : Nat → Bool) (l : List Nat) (x : Nat) :
+    (l.filter p).count x = if p x then l.count x else 0 := by
+  induction l with
+  | nil => simp
+  | cons a l ih =>
+    by_cases ha : p a = true
+    · by_cases hx : a = x
+      · subst hx; simp [ha, ih]
+      · have : (a == x) = false := by simpa using hx
+        simp [ha, ih, List.count_cons, this]
+    · have ha' : p a = false := by simpa using ha
+      by_cases hx : a = x
+      · subst hx; simp [ha', ih]
+      · have : (a == x) = false := by simpa using hx
+        simp [ha', ih, List.count_cons, this]
+
+/-- **ids named more than once in one request** (the API allows it).  An id some available shard
+processed is never listed as failed, however often the request names it and however often the shards
+report it (a delete works on a set and reports it once; an update reports it once per entry); an id no
+available shard processed is listed exactly as often as the request names it.  A bookkeeping that
+ticks reported ids off a set, or counts them, gets the first half wrong. -/
+theorem C17_failed_count_delete (col : Coll) (ids : List Nat) (x : Nat) :
+    ((deletePoints col ids).failed.map (·.1)).count x = if heldUp col x then 0 else ids.count x := by
+  rw [C17_failed_delete, List.map_map]
+  have : ((fun e : Nat × Msg => e.1) ∘ fun i => (i, if col.all (·.up) then Msg.notFound else Msg.unavailable)) = id := rfl
+  rw [this, List.map_id, count_filter_ite]
+  cases heldUp col x <;> simp
+
+theorem C17_failed_count_update (col : Coll) (req : List (Nat × Int)) (x : Nat) :
+    ((updatePoints col req).failed.map (·.1)).count x = if heldUp col x then 0 else (req.map (·.1)).count x := by
+  rw [C17_failed_update, List.map_map]
+  have : ((fun e : Nat × Msg => e.1) ∘ fun i => (i, if col.all (·.up) then Msg.notFound else Msg.unavailable)) = id := rfl
+  rw [this, List.map_id, count_filter_ite]
+  cases heldUp col x <;> simp
+
+/-- the same on the level of `curateFailedPoints`, for every sort: multiplicities of the success list do not matter -/
+theorem C17_curate_count {sort : List Nat → List Nat} (hsort : IsSort sort) (all succ : List Nat) (complete : Bool) (x : Nat) :
+    ((curateWith sort all succ complete).map (·.1)).count x = if succ.contains x then 0 else all.count x := by
+  rw [C17_curate hsort, List.map_map]
+  have : ((fun e : Nat × Msg => e.1) ∘ fun i => (i, if complete then Msg.notFound else Msg.unavailable)) = id := rfl
+  rw [this, List.map_id, count_filter_ite]
+  cases succ.contains x <;> simp
+
+/-- non-vacuity: id 5 (held by an available shard) named twice, 7 (held by nobody) named three times, 3 (its shard is down) twice -/
+example : ((deletePoints exCol [5, 7, 5, 3, 7, 3, 7]).failed.map (·.1)) = [7, 3, 7, 3, 7] ∧ heldUp exCol 5 = true ∧ heldUp exCol 7 = false ∧ heldUp exCol 3 = false := by decide
+
 /-! ### search -/
 
 /-- **C17_search**, for every comparator `le` and every function `sort` returning an `le`-sorted
